@@ -9,6 +9,10 @@ ID="${1:?usage: run.sh <ID> quick|thorough|replay <file>}"
 MODE="${2:-quick}"
 shift; shift || true
 here="$(cd "$(dirname "$0")" && pwd)"
+# make a replay path absolute before changing directory
+if [ "$MODE" = replay ] && [ -n "${1:-}" ]; then
+  case "$1" in /*) : ;; *) set -- "$(pwd)/$1" "${@:2}" ;; esac
+fi
 export VERIF_DIR="$here"
 export CARGO_NET_OFFLINE=true
 crate="$(echo "$ID" | tr 'A-Z' 'a-z')"
